@@ -2426,6 +2426,15 @@ evhttp_get_body(struct evhttp_connection *evcon, struct evhttp_request *req)
 	/* If this is a request without a body, then we are done */
 	if (req->kind == EVHTTP_REQUEST &&
 	    !evhttp_method_may_have_body_(evcon, req->type)) {
+		/* Request framing does not depend on the method (RFC 9112
+		 * 6.3).  We do not read a body for this method, so a body
+		 * that is announced would be taken for the next request:
+		 * refuse the request instead. */
+		if (evhttp_find_header(req->input_headers, "Transfer-Encoding") != NULL ||
+		    evhttp_get_body_length(req) == -1 || req->ntoread > 0) {
+			evhttp_connection_fail_(evcon, EVREQ_HTTP_INVALID_HEADER);
+			return;
+		}
 		evhttp_connection_done(evcon);
 		return;
 	}
